@@ -63,6 +63,13 @@ pub fn run(ctx: &Ctx) -> Report {
     for t in tid_cases(ctx) {
         cases.push(Case::new("tid", t.to_be_bytes().to_vec()));
     }
+    // bodies beyond the 16-bit length field (the length cannot be right there, the type and the
+    // transaction id still must be)
+    for c in 0..4 {
+        for m in [0i64, 1, 2, 4, 6, 8, 0x100, 0xFFE, 0xFFF] {
+            cases.push(Case::new("oversize", vec![]).args(&[c, m]));
+        }
+    }
     let n_cases = cases.len() as u64;
     let mut acc = sweep(cases.into_par_iter(), judge);
 
@@ -207,6 +214,32 @@ pub fn judge(case: &Case, acc: &mut Acc) {
                         }
                     }
                 }
+            }
+        }
+        "oversize" => {
+            let (c, m) = (case.args[0] as u8, case.args[1] as u16);
+            acc.outcome("oversize body");
+            let tidv: u128 = 0x8001_0203_0405_0607_0809_0A0B;
+            for total in [70_000usize, 140_000] {
+                let mut b = real::builder(c, m, tidv);
+                let blob = vec![0x33u8; 30_000];
+                let mut n = 0u16;
+                let mut size = 0usize;
+                while size < total {
+                    b.add_raw_attribute(stun_types::attribute::RawAttribute::new((0xC100 + n).into(), &blob)).unwrap();
+                    n += 1;
+                    size += 30_004;
+                }
+                let built = b.build();
+                let mut dest = vec![0u8; built.len()];
+                let w = b.write_into(&mut dest);
+                let want = wire::join_type(c, m).to_be_bytes();
+                for (how, bytes) in [("build", &built), ("write_into", &dest)] {
+                    if bytes.len() < 20 || bytes[0..2] != want || bytes[4..8] != [0x21, 0x12, 0xA4, 0x42] || bytes[8..20] != tidv.to_be_bytes()[4..16] {
+                        viol!(acc, P, "oversize-body-header", case, format!("{how}() of a message with a body beyond 64 KiB writes a wrong type field / cookie / transaction id"), format!("{} 2112a442 {}", crate::refimpl::crypto::hex(&want), crate::refimpl::crypto::hex(&tidv.to_be_bytes()[4..16])), crate::refimpl::crypto::hex(&bytes[..20.min(bytes.len())]));
+                    }
+                }
+                let _ = w;
             }
         }
         "tid" => {
